@@ -59,6 +59,32 @@ const char *errName(TransportError e)
   }
 }
 
+// every code the engines really pass to onClose for a session that may have delivered data (tcp_engine.hpp /
+// udp_engine.hpp closeNow + shutdownDrain call sites): orderly peer close, application close / shutdown /
+// listener gone (Unknown), write-stall and connect timeouts, socket and TLS I/O errors, back-pressure,
+// GC (idle / max age), connect errors, and ShuttingDown for a connect accepted during the drain.
+// Index 0 stays PeerClosed (older saved cases use 0).
+struct CloseReason
+{
+  TransportError code;
+  const char *msg;
+};
+const CloseReason kCloseReasons[] = {
+  {TransportError::PeerClosed, "peer closed"},
+  {TransportError::Unknown, "closed by app"},
+  {TransportError::Unknown, "shutdown"},
+  {TransportError::Timeout, "Write stall timeout"},
+  {TransportError::Socket, "Connection reset by peer"},
+  {TransportError::TLSIO, "tls read error"},
+  {TransportError::TLSHandshake, "TLS handshake timeout"},
+  {TransportError::WriteBackpressure, "write queue overflow"},
+  {TransportError::GCClosed, "GC safety-net timeout"},
+  {TransportError::Connect, "Connection refused"},
+  {TransportError::ShuttingDown, "transport shutting down"},
+  {TransportError::PeerClosed, "Connection closed by peer (EPOLLHUP/EPOLLERR)"},
+};
+constexpr std::size_t kNCloseReasons = sizeof kCloseReasons / sizeof kCloseReasons[0];
+
 // the arrival stream of session k: byte i is a pure function of (k, i); any 251
 // consecutive bytes are pairwise different, so a shifted / reordered / duplicated
 // hand-over cannot coincide with the expected bytes
@@ -228,6 +254,7 @@ static void runSequential(pbt::Case &c, std::size_t cap, unsigned nsess, std::si
   } describeAtExit{c, desc};
   desc << "cap=" << cap << " sessions=" << nsess << " gc=" << gcThr << " ops:";
   bool sawSwitch = false, sawClose = false, sawOverflowNonEmpty = false, sawFlush = false;
+  bool sawNonPeerCloseWithData = false;
   bool sawPartial = false, sawLate = false, sawStickyRepeat = false, sawEof = false, sawDisabledDrop = false;
   unsigned overflowErrs = 0;
 
@@ -460,10 +487,12 @@ static void runSequential(pbt::Case &c, std::size_t cap, unsigned nsess, std::si
     else // ------------------------------------------------------------------- Close
     {
       if (m.closed) continue;
-      desc << " C(s" << k << ")";
+      const CloseReason &why = kCloseReasons[static_cast<std::size_t>(row[2]) % kNCloseReasons];
+      desc << " C(s" << k << "," << why.msg << ")";
       if (!m.buf.empty()) sawClose = true;
+      if (!m.buf.empty() && why.code != TransportError::PeerClosed) sawNonPeerCloseWithData = true;
       std::size_t cbBefore = h.cbLog.size();
-      h.eng->fireClose(sid, TransportError::PeerClosed, "peer closed");
+      h.eng->fireClose(sid, why.code, why.msg);
       if (h.cbLog.size() != cbBefore)
       {
         c.fail("C03/close-invoked-data-callback", "onClose caused a data callback");
@@ -504,6 +533,7 @@ static void runSequential(pbt::Case &c, std::size_t cap, unsigned nsess, std::si
   if (sawSwitch) c.label("mode switch");
   if (sawFlush) c.label("flush with buffered bytes");
   if (sawClose) c.label("close with buffered bytes");
+  if (sawNonPeerCloseWithData) c.label("close with buffered bytes, reason other than PeerClosed");
   if (sawOverflowNonEmpty) c.label("overflow with non-empty buffer");
   if (overflowErrs) c.label("BufferOverflow reported");
   if (sawStickyRepeat) c.label("BufferOverflow reported again (sticky)");
@@ -546,6 +576,7 @@ struct ConcPlan
   std::vector<Io> io;
   bool close = false;
   unsigned closeDelayUs = 0;
+  std::size_t closeReason = 0; // index into kCloseReasons
   struct App
   {
     int kind; // 0 receive, 1 setmode, 2 pause
@@ -649,7 +680,7 @@ static void runConcurrent(pbt::Case &c, const ConcPlan &p)
         }
         if (p.closeDelayUs) std::this_thread::sleep_for(std::chrono::microseconds(p.closeDelayUs));
         closeDispatchBegun.store(true);
-        eng->fireClose(sid, TransportError::PeerClosed, "peer closed");
+        eng->fireClose(sid, kCloseReasons[p.closeReason % kNCloseReasons].code, kCloseReasons[p.closeReason % kNCloseReasons].msg);
         closeFiredAtNs.store(nowNs());
       }
       ioDone.store(true);
@@ -902,7 +933,7 @@ static void runConcurrent(pbt::Case &c, const ConcPlan &p)
   if (p.perturbSeed) d << " perturb=" << p.perturbSeed;
   d << " io:";
   for (auto &x : p.io) d << " +" << x.delayUs << "us/" << x.len << "B";
-  if (p.close) d << " +" << p.closeDelayUs << "us/close";
+  if (p.close) d << " +" << p.closeDelayUs << "us/close(" << kCloseReasons[p.closeReason % kNCloseReasons].msg << ")";
   d << " app:";
   for (auto &a : p.app)
   {
@@ -921,6 +952,8 @@ static void runConcurrent(pbt::Case &c, const ConcPlan &p)
   if (nData) c.label("receive returned data");
   if (nTimeout) c.label("receive timed out");
   if (eofSeen) c.label("PeerClosed after full drain");
+  if (eofSeen && kCloseReasons[p.closeReason % kNCloseReasons].code != TransportError::PeerClosed)
+    c.label("drained up to a close with a reason other than PeerClosed");
   if (overflowSeen) c.label("BufferOverflow reported");
   if (nFlushBytes) c.label("flush handed buffered bytes");
   if (!disabledWin.empty()) c.label("Disabled window");
@@ -956,6 +989,7 @@ static ConcPlan genConc(pbt::Src &src)
   }
   p.close = src.coin(2, 3);
   p.closeDelayUs = static_cast<unsigned>(src.range(0, 300));
+  p.closeReason = src.coin(1, 3) ? 0 : static_cast<std::size_t>(src.range(0, static_cast<std::int64_t>(kNCloseReasons) - 1));
   p.closeAfterParked = p.close && src.coin(1, 5);
   p.perturbSeed = src.coin(2, 3) ? static_cast<std::uint64_t>(src.range(1, 1 << 20)) : 0;
   p.flushCbDelayUs = (p.variant == 1 || p.variant == 3) ? src.oneOf<unsigned>({0, 30, 120, 300}) : 0;
@@ -1075,6 +1109,11 @@ PBT_PROPERTY(e2e)
     stream += arrivalBytes(0, stream.size(), len);
   }
   unsigned finDelayUs = static_cast<unsigned>(src.range(0, 300));
+  // how the session ends: 0 the peer sends FIN right after its last byte; 1 the application calls close(sid),
+  // 2 the application calls stop(), 3 the peer resets the connection - in 1..3 only AFTER the engine has read
+  // (and therefore delivered through onData) every byte, so everything the peer sent "arrived before the close"
+  int closeKind = static_cast<int>(src.weighted({5, 2, 2, 2}));
+  static const char *closeKindName[] = {"peer-FIN", "app-close", "stop()", "peer-RST"};
 
   // ---- raw peer. The listening socket lives for the whole process (binding a fresh port per case
   // would exhaust the ephemeral range through TIME_WAIT in long runs); its accept queue is drained
@@ -1116,6 +1155,7 @@ PBT_PROPERTY(e2e)
   }
   std::atomic<bool> peerFailed{false};
   std::atomic<std::uint64_t> finSentNs{0};
+  std::atomic<bool> peerMayFinish{false};
   auto nowNs = [] {
     return static_cast<std::uint64_t>(
       std::chrono::duration_cast<std::chrono::nanoseconds>(std::chrono::steady_clock::now().time_since_epoch()).count());
@@ -1151,9 +1191,24 @@ PBT_PROPERTY(e2e)
       }
       off += sp.second;
     }
-    if (finDelayUs) std::this_thread::sleep_for(std::chrono::microseconds(finDelayUs));
-    ::shutdown(fd, SHUT_WR); // FIN after the last byte
-    finSentNs.store(nowNs());
+    if (closeKind != 0)
+    {
+      for (int i = 0; i < 600000 && !peerMayFinish.load(); ++i) std::this_thread::sleep_for(std::chrono::microseconds(50));
+      if (closeKind == 3)
+      {
+        linger lg{1, 0};
+        ::setsockopt(fd, SOL_SOCKET, SO_LINGER, &lg, sizeof lg);
+        ::close(fd); // RST
+        finSentNs.store(nowNs());
+        return;
+      }
+    }
+    else
+    {
+      if (finDelayUs) std::this_thread::sleep_for(std::chrono::microseconds(finDelayUs));
+      ::shutdown(fd, SHUT_WR); // FIN after the last byte
+      finSentNs.store(nowNs());
+    }
     char buf[64];
     pollfd rp{fd, POLLIN, 0};
     // wait (bounded) for the other side to go away so that close() does not reset unread data
@@ -1247,8 +1302,31 @@ PBT_PROPERTY(e2e)
     else
       receive(lens[static_cast<std::size_t>(r[1]) % 6], tmos[static_cast<std::size_t>(r[2]) % 4]);
   }
+  bool allArrived = true;
+  if (closeKind != 0 && failSig.empty())
+  {
+    // wait until the engine has read every byte: bytesIn is bumped before the chunk's onData, and both the Close
+    // command / Shutdown and a later RST event are handled by the same I/O thread after that callback returned
+    allArrived = false;
+    for (int i = 0; i < 100000 && !peerFailed.load(); ++i)
+    {
+      if (tr->getStats().bytesIn >= stream.size())
+      {
+        allArrived = true;
+        break;
+      }
+      std::this_thread::sleep_for(std::chrono::microseconds(100));
+    }
+    if (allArrived)
+    {
+      if (closeKind == 1) tr->close(sid);
+      else if (closeKind == 2) tr->stop();
+      if (closeKind != 3) finSentNs.store(nowNs());
+    }
+  }
+  peerMayFinish.store(true);
   tr->setReadMode(sid, ReadMode::Sync); // (a no-op after the close: the late receives below still drain)
-  for (int guard = 0; guard < 100000 && failSig.empty() && !eof; ++guard)
+  for (int guard = 0; guard < 100000 && failSig.empty() && !eof && allArrived; ++guard)
   {
     TransportError r = receive(97, 3000);
     if (r != TransportError::None) break;
@@ -1256,11 +1334,16 @@ PBT_PROPERTY(e2e)
   peer.join();
   tr->stop();
   c.describe(pbt::Fmt() << "e2e chunks=" << sendPlan.size() << " bytes=" << stream.size() << " ioReadChunk=" << readChunk
-                        << " finDelay=" << finDelayUs << "us switchModes=" << switchModes << " appOps=" << appOps.size()
+                        << " end=" << closeKindName[closeKind] << " finDelay=" << finDelayUs << "us switchModes=" << switchModes << " appOps=" << appOps.size()
                         << " => handed " << handed.size() << " (callback " << viaCb << ")" << (eof ? " eof" : ""));
   if (peerFailed.load())
   {
     c.inconclusive("raw peer could not deliver its script");
+    return;
+  }
+  if (!allArrived)
+  {
+    c.inconclusive("engine did not read the whole stream in time");
     return;
   }
   if (failSig.empty())
@@ -1284,6 +1367,7 @@ PBT_PROPERTY(e2e)
     return;
   }
   if (eof) c.label("e2e: PeerClosed after full drain");
+  if (eof) c.label(std::string("e2e: session ended by ") + closeKindName[closeKind]);
   if (viaCb) c.label("e2e: bytes through the callback");
   if (!stream.empty() && eof) c.nontrivial(pbt::hashMix(pbt::hash64(stream), pbt::hashMix(readChunk, appOps.size())));
 }
@@ -1303,6 +1387,17 @@ PBT_REGRESSION(sync_disabled_async_stale_bytes)
   // callback at the switch, before the bytes that arrive afterwards.
   std::vector<pbt::Row> ops = {{14, 0, 1, 0}, {0, 0, 2, 1}, {14, 0, 2, 0}, {14, 0, 0, 0}, {0, 0, 2, 1}, {14, 0, 1, 0}, {8, 0, 12, 0}};
   runSequential(c, 64, 1, 1024, ops, true);
+}
+PBT_REGRESSION(drain_before_eof_after_app_close)
+{
+  // bytes buffered in Sync mode with no reader parked, then the application's own close ("closed by app",
+  // code Unknown) / a socket error: every byte that arrived before the close is still returned, then PeerClosed
+  for (std::int64_t reason : {1, 4, 7, 8, 10})
+  {
+    std::vector<pbt::Row> ops = {{14, 0, 1, 0}, {0, 0, 9, 1}, {19, 0, reason, 0}, {8, 0, 3, 0}, {8, 0, 12, 0}, {8, 0, 12, 0}};
+    runSequential(c, 64, 1, 1024, ops, true);
+    if (c.failed()) return;
+  }
 }
 PBT_REGRESSION(drain_before_peer_closed)
 {
